@@ -44,8 +44,8 @@ def run_workers(hists, seed, tag):
 
 
 def run(ctx: Ctx) -> None:
-    ctx.rule = ("every history of <= MaxOps operations over 9 operation instances (sugar build on two frames, Formula object, ONE shared un-materialised "
-                "ModelSpec on two frames, reuse / subset / pickle / update of an obtained spec), each executed under 3 hash seeds; non-trivial = "
+    ctx.rule = ("every history of <= MaxOps operations over 12 operation instances (sugar build on two frames, Formula object, ONE shared un-materialised "
+                "ModelSpec on two frames, reuse / subset / pickle / update of an obtained spec, ONE shared materializer instance used with a formula for two outputs and with an obtained spec), each executed under 3 hash seeds; non-trivial = "
                 ">= 2 operations, at least one repeated or sharing an object")
     ctx.trusted = ["structural fingerprints of frames / formulas / specs / matrices (bytes of the numeric payload)", "TLC"]
     out = workdir("c18") / "hist.ndjson"
@@ -113,7 +113,7 @@ def run(ctx: Ctx) -> None:
             ctx.evaluations += 1
             v = rejected.get(x["id"])
             hist = byid[x["id"]]["hist"]
-            if len(hist) >= 2 and (len(set(hist)) < len(hist) or sum(o.startswith("U") for o in hist) >= 2 or any(o in ("R", "S", "P", "UPD") for o in hist)):
+            if len(hist) >= 2 and (len(set(hist)) < len(hist) or sum(o.startswith("U") for o in hist) >= 2 or any(o in ("R", "S", "P", "UPD", "MR") for o in hist)):
                 ctx.nontrivial.add(jhash(hist))
             if v:
                 st = x["steps"][v["step"] - 1]
